@@ -94,6 +94,7 @@ def shards(tier, seed):
         for t0 in TOKENS:
             out.append(('tok', n, t0, k))
     out.append(('misc', None, None, None))
+    out.append(('overlap', None, None, None))
     out.append(('tz', None, None, None))
     out.append(('rewrite', None, None, None))
     MB = 1 << 20
@@ -109,7 +110,7 @@ def bounds(tier, seed):
             'if_modified_since': ['absent', 'mtime-1', 'mtime', 'mtime+1', 'garbage'], 'process_time_zones': ZONES, 'methods': ['GET', 'HEAD']}
 
 
-FLOORS = {'rewrite_probes': 50, 'tz_cases': 50, 'r206': 1000, 'r416': 1000, 'r304': 20, 'r200': 20, 'head_pairs': 100, 'multi_chunk_206': 50,
+FLOORS = {'overlapping_answers': 50, 'rewrite_probes': 50, 'tz_cases': 50, 'r206': 1000, 'r416': 1000, 'r304': 20, 'r200': 20, 'head_pairs': 100, 'multi_chunk_206': 50,
           'canonical_sat': 200, 'canonical_unsat': 100}
 
 
@@ -159,7 +160,11 @@ class Ctx:
         if ims is not None:
             h['If-Modified-Since'] = ims
         env = wsgi.environ(method, '/c17/' + self.file(n), headers=h)
+        if self.file_wrapper:
+            env['wsgi.file_wrapper'] = wsgi.FileWrapper        # the server offers its own way of sending files
         return wsgi.call(self.app, env)
+
+    file_wrapper = False
 
 
 IMS = ['absent', 'before', 'equal', 'after', 'garbage',
@@ -318,6 +323,65 @@ def one(res, ctx, n, rng, ims_kind, buf, with_head, extra=None):
     return v
 
 
+def overlap_once(ctx, n, rng_a, rng_b, after):
+    """Two answers are under way at the same time (an event-loop or threaded server): A's first `after` chunks are sent,
+    then B is sent completely and closed, then the rest of A.  -> None or a description of what went wrong with A."""
+    name = ctx.file(n)
+    data = content(n)
+
+    def start(rng):
+        box = {}
+
+        def sr(status, headers, exc_info=None):
+            box['status'], box['headers'] = status, dict(headers)
+            return lambda d: None
+        h = {'Range': rng} if rng else {}
+        it = ctx.app(wsgi.environ('GET', '/c17/' + name, headers=h), sr)
+        return box, it
+    a_box, a_it = start(rng_a)
+    a_iter = iter(a_it)
+    got = []
+    try:
+        for _ in range(after):
+            got.append(next(a_iter))
+    except StopIteration:
+        pass
+    b_box, b_it = start(rng_b)
+    b_body = b''.join(b_it)
+    if hasattr(b_it, 'close'):
+        b_it.close()
+    for chunk in a_iter:
+        got.append(chunk)
+    if hasattr(a_it, 'close'):
+        a_it.close()
+    body = b''.join(got)
+    cl = a_box['headers'].get('Content-Length')
+    klass, sl = ref_range(rng_a, n) if rng_a else (None, None)
+    want = data[sl[0]:sl[1] + 1] if (rng_a and sl not in (None, 'unsat')) else data
+    if cl != str(len(body)) or body != want:
+        return (f'{n}-byte file: answer A (Range {rng_a!r}, {a_box.get("status")}, Content-Length {cl}) was interrupted after {after} chunk(s) by a complete '
+                f'answer B (Range {rng_b!r}) on the same application; A then delivered {len(body)} bytes {body[:20]!r}..., expected {len(want)} bytes')
+    return None
+
+
+def work_overlap(res, ctx):
+    ctx.small_buffer(True)
+    c = res['counters']
+    for n in (9, 12):
+        for rng_a in ('bytes=0-8', 'bytes=2-', None):
+            for rng_b in ('bytes=0-3', 'bytes=1-7', None):
+                for after in (0, 1, 2):
+                    res['states'] += 1
+                    res['transitions'] += 2
+                    res['nontrivial'] += 1
+                    c['overlapping_answers'] += 1
+                    bad = overlap_once(ctx, n, rng_a, rng_b, after)
+                    res['outcomes'].add('overlap ' + ('ok' if bad is None else 'BAD'))
+                    if bad:
+                        core.add_violation(res, {'overlap': [n, rng_a, rng_b, after]}, bad, sig='overlap')
+    core.add_sample(res, {'overlapping_answers': c['overlapping_answers']})
+
+
 def work(spec):
     kind, n, t0, k = spec
     res = core.new_result()
@@ -352,7 +416,16 @@ def work(spec):
                 for rng in rngs:
                     for ik in IMS:
                         one(res, ctx, n, rng, ik, BUF, with_head=True)
-            core.add_sample(res, {'misc_ranges': rngs, 'ims': list(IMS)})
+            # the same on a server that offers wsgi.file_wrapper
+            ctx.file_wrapper = True
+            for n in range(0, 13):
+                for rng in rngs:
+                    for ik in IMS[:5]:
+                        one(res, ctx, n, rng, ik, BUF, with_head=True, extra={'fw': True})
+            ctx.file_wrapper = False
+            core.add_sample(res, {'misc_ranges': rngs, 'ims': list(IMS), 'with_and_without_wsgi.file_wrapper': True})
+        elif kind == 'overlap':
+            work_overlap(res, ctx)
         elif kind == 'rewrite':
             # one file name, rewritten with other lengths while its modification time (whole second) stays the same:
             # every answer must describe the bytes that are on disk NOW
@@ -453,8 +526,12 @@ def replay(case):
             os.environ['TZ'] = case['zone']
             time.tzset()
             ctx.mtime = case['mtime']
+        if 'overlap' in case:
+            ctx.small_buffer(True)
+            return overlap_once(ctx, *case['overlap'])
         buf = case['buf']
         ctx.small_buffer(buf == BUF)
+        ctx.file_wrapper = bool(case.get('fw'))
         n, rng, ik = case['n'], case['range'], case['ims']
         g = ctx.get(n, rng, ims_value(ik, ctx.mtime), 'GET')
         v = judge(g, n, rng, ik, 'GET', buf)
@@ -466,7 +543,8 @@ def replay(case):
         if v is None:
             return None
         z = f' (process TZ={case["zone"]}, mtime={formatdate(case["mtime"], usegmt=True)})' if case.get('zone') else ''
-        return f'{n}-byte file, Range={rng!r}, If-Modified-Since={ik}{z}: {v[1]}'
+        fw = ' (the server offers wsgi.file_wrapper)' if case.get('fw') else ''
+        return f'{n}-byte file, Range={rng!r}, If-Modified-Since={ik}{z}{fw}: {v[1]}'
     finally:
         if case.get('zone'):
             if old is None:
